@@ -30,7 +30,7 @@ Lemma join_cons_ne x L : L <> [] -> join S_NL (x :: L) = x ++ S_NL ++ join S_NL 
 Proof. destruct L; [congruence|reflexivity]. Qed.
 
 Lemma lines_join_app_n n : forall U L, (length U <= n)%nat -> complete U -> ~ In 13%N U -> L <> [] ->
-  join S_NL (lines U ++ L) = U ++ join S_NL L.
+  join S_NL (ulines U ++ L) = U ++ join S_NL L.
 Proof.
   induction n as [|n IH]; intros U L Hl Hc Hcr HL.
   - destruct U; [reflexivity|simpl in Hl; lia].
@@ -38,18 +38,18 @@ Proof.
     destruct (complete_split U Hc) as (a & r & E & Ha & Hcr' & Hlen); [rewrite EU; discriminate|].
     assert (Hcra : ~ In 13%N a) by (intros H; apply Hcr; rewrite E; apply in_or_app; left; exact H).
     assert (Hcrr : ~ In 13%N r) by (intros H; apply Hcr; rewrite E; apply in_or_app; right; right; exact H).
-    rewrite E at 1. unfold lines. rewrite lines_acc_line by exact Ha. cbn [rev app]. rewrite drop_cr_id by exact Hcra.
-    fold (lines r). cbn [app]. rewrite join_cons_ne.
+    rewrite E at 1. unfold ulines. rewrite ulines_acc_line by exact Ha. cbn [rev app]. rewrite drop_cr_id by exact Hcra.
+    fold (ulines r). cbn [app]. rewrite join_cons_ne.
     + rewrite IH; [|lia|exact Hcr'|exact Hcrr|exact HL]. rewrite E. unfold S_NL. repeat rewrite <- app_assoc. reflexivity.
-    + destruct (lines r); [exact HL|discriminate].
+    + destruct (ulines r); [exact HL|discriminate].
 Qed.
-Lemma lines_join_app U L : complete U -> ~ In 13%N U -> L <> [] -> join S_NL (lines U ++ L) = U ++ join S_NL L.
+Lemma lines_join_app U L : complete U -> ~ In 13%N U -> L <> [] -> join S_NL (ulines U ++ L) = U ++ join S_NL L.
 Proof. intros. eapply lines_join_app_n; eauto. Qed.
 
-Lemma lines_app_complete U V : complete U -> ~ In 13%N U -> lines (U ++ V) = lines U ++ lines V.
-Proof. intros Hc Hr. destruct (lines_complete U V Hc Hr) as [H _]. exact H. Qed.
+Lemma lines_app_complete U V : complete U -> ~ In 13%N U -> ulines (U ++ V) = ulines U ++ ulines V.
+Proof. intros Hc Hr. destruct (ulines_complete U V Hc Hr) as [H _]. exact H. Qed.
 
-(** first / blank / Down lines *)
+(** first / blank / Down ulines *)
 Lemma goose_first rest acc :
   goose_loop ((S_GOOSE ++ [32;85;112]%N) :: rest) GNone acc = goose_loop rest GUp acc.
 Proof. reflexivity. Qed.
@@ -61,22 +61,22 @@ Proof. reflexivity. Qed.
 
 Definition goose_hdr : bytes := S_DELIM_DIRECTIVE ++ GOOSE_DELIM.
 
-(** the text handed to the scanner, for an up section [U] of good lines *)
-Lemma goose_text_up U D : complete U -> ~ In 13%N U -> forallb goose_line_ok (lines U) = true ->
+(** the text handed to the scanner, for an up section [U] of good ulines *)
+Lemma goose_text_up U D : complete U -> ~ In 13%N U -> short U = true -> forallb goose_line_ok (ulines U) = true ->
   goose_text (S_GOOSE_UP ++ U ++ S_GOOSE_DOWN ++ D) =
-  Some (join S_NL ([goose_hdr; []] ++ goose_rewrite (lines U) ++ [[]])).
+  Some (join S_NL ([goose_hdr; []] ++ goose_rewrite (ulines U) ++ [[]])).
 Proof.
-  intros Hc Hcr Hl. unfold goose_text.
+  intros Hc Hcr Hsh Hl. unfold goose_text.
   assert (E : lines (S_GOOSE_UP ++ U ++ S_GOOSE_DOWN ++ D) =
-              (S_GOOSE ++ [32;85;112]%N) :: lines U ++ [] :: (S_GOOSE ++ [32;68;111;119;110]%N) :: lines D).
+              (S_GOOSE ++ [32;85;112]%N) :: ulines U ++ [] :: (S_GOOSE ++ [32;68;111;119;110]%N) :: lines D).
   { unfold S_GOOSE_UP, S_GOOSE_DOWN.
     replace ((S_GOOSE ++ [32; 85; 112; 10]%N) ++ U ++ ([10%N] ++ S_GOOSE ++ [32; 68; 111; 119; 110; 10]%N) ++ D)
       with ((S_GOOSE ++ [32;85;112]%N) ++ 10%N :: (U ++ ([] ++ 10%N :: ((S_GOOSE ++ [32;68;111;119;110]%N) ++ 10%N :: D))))
       by (repeat (rewrite <- app_assoc; simpl); reflexivity).
-    unfold lines at 1. rewrite lines_acc_line by (vm_compute; intuition discriminate).
-    fold (lines (U ++ [] ++ 10%N :: (S_GOOSE ++ [32;68;111;119;110]%N) ++ 10%N :: D)).
-    rewrite (lines_app_complete U _ Hc Hcr).
-    unfold lines at 2. rewrite lines_acc_line by (intros []). rewrite lines_acc_line by (vm_compute; intuition discriminate).
+    rewrite lines_cons by (vm_compute; intuition discriminate).
+    rewrite (lines_short U _ Hc Hcr Hsh).
+    rewrite lines_cons by (vm_compute; intuition discriminate).
+    rewrite lines_cons by (vm_compute; intuition discriminate).
     reflexivity. }
   rewrite E. rewrite goose_first. rewrite goose_loop_good by exact Hl. rewrite goose_blank, goose_down.
   f_equal. f_equal. cbn [rev]. rewrite rev_app_distr, rev_involutive. cbn [rev app].
@@ -97,12 +97,13 @@ Proof.
 Qed.
 
 (** decidable, on the bytes the formatter writes for one change: every line is copied unchanged,
-    the delimiter line is inserted exactly once, after the last line; no carriage return; the
-    comment line does not read as the delimiter line *)
+    the delimiter line is inserted exactly once, after the last line; no carriage return; every
+    line fits bufio.Scanner's 64 KiB buffer; the comment line does not read as the delimiter line *)
 Definition goose_change_ok (c : change) : bool :=
-  forallb goose_line_ok (lines (tool_change c))
-  && lb_eqb (goose_rewrite (lines (tool_change c))) (lines (tool_change c) ++ [GOOSE_DELIM])
+  forallb goose_line_ok (ulines (tool_change c))
+  && lb_eqb (goose_rewrite (ulines (tool_change c))) (ulines (tool_change c) ++ [GOOSE_DELIM])
   && negb (existsb (N.eqb 13) (tool_change c))
+  && short (tool_change c)
   && negb (has_prefix (tool_comment S_DASH2_SP (c_comment c)) GOOSE_DELIM).
 
 Lemma tool_change_complete c : complete (tool_change c).
@@ -127,40 +128,46 @@ Qed.
 
 Lemma goose_up_facts cs : Forall (fun c => goose_change_ok c = true) cs ->
   complete (concat (map tool_change cs)) /\ ~ In 13%N (concat (map tool_change cs)) /\
-  forallb goose_line_ok (lines (concat (map tool_change cs))) = true /\
+  short (concat (map tool_change cs)) = true /\
+  forallb goose_line_ok (ulines (concat (map tool_change cs))) = true /\
   forall L, L <> [] ->
-    join S_NL (goose_rewrite (lines (concat (map tool_change cs))) ++ L) =
+    join S_NL (goose_rewrite (ulines (concat (map tool_change cs))) ++ L) =
     concat (map (fun c => tool_change c ++ GOOSE_DELIM ++ [10%N]) cs) ++ join S_NL L.
 Proof.
   induction cs as [|c cs IH]; intros Hall.
   - repeat split; try reflexivity; [left; reflexivity|intros []].
-  - apply Forall_cons_iff in Hall as [Hc Hall]. destruct (IH Hall) as (I1 & I2 & I3 & I4).
-    unfold goose_change_ok in Hc. apply andb_true_iff in Hc as [Hc H4]. apply andb_true_iff in Hc as [Hc H3].
+  - apply Forall_cons_iff in Hall as [Hc Hall]. destruct (IH Hall) as (I1 & I2 & I2s & I3 & I4).
+    unfold goose_change_ok in Hc. apply andb_true_iff in Hc as [Hc H4]. apply andb_true_iff in Hc as [Hc H3s].
+    apply andb_true_iff in Hc as [Hc H3].
     apply andb_true_iff in Hc as [H1 H2]. apply lb_eqb_eq in H2. apply not_existsb_13 in H3.
     pose proof (tool_change_complete c) as Hcc.
     cbn [map concat].
-    assert (Hl : lines (tool_change c ++ concat (map tool_change cs)) =
-                 lines (tool_change c) ++ lines (concat (map tool_change cs)))
+    assert (Hl : ulines (tool_change c ++ concat (map tool_change cs)) =
+                 ulines (tool_change c) ++ ulines (concat (map tool_change cs)))
       by (apply lines_app_complete; assumption).
     split; [apply complete_app; assumption|].
     split; [intros Hin; apply in_app_or in Hin as [Hin|Hin]; auto|].
+    split.
+    { unfold short. rewrite Hl, forallb_app.
+      change (short (tool_change c) && short (concat (map tool_change cs)) = true).
+      rewrite H3s, I2s. reflexivity. }
     split; [rewrite Hl, forallb_app, H1, I3; reflexivity|].
     intros L HL. rewrite Hl, goose_rewrite_app, H2. repeat rewrite <- app_assoc.
     rewrite lines_join_app; [|exact Hcc|exact H3|discriminate].
     cbn [app]. rewrite join_cons_ne.
     + rewrite I4 by exact HL. unfold S_NL. repeat rewrite <- app_assoc. reflexivity.
-    + destruct (goose_rewrite (lines (concat (map tool_change cs)))); [exact HL|discriminate].
+    + destruct (goose_rewrite (ulines (concat (map tool_change cs)))); [exact HL|discriminate].
 Qed.
 
 Lemma goose_text_plan p : Forall (fun c => goose_change_ok c = true) (p_changes p) ->
   goose_text (goose_content p) =
   Some (goose_hdr ++ 10%N :: 10%N :: concat (map (fun c => tool_change c ++ GOOSE_DELIM ++ [10%N]) (p_changes p))).
 Proof.
-  intros Hall. destruct (goose_up_facts _ Hall) as (H1 & H2 & H3 & H4).
+  intros Hall. destruct (goose_up_facts _ Hall) as (H1 & H2 & H2s & H3 & H4).
   unfold goose_content, tool_up. rewrite goose_text_up by assumption. f_equal.
   cbn [app]. rewrite join_cons_ne by discriminate. rewrite join_cons_ne.
   - rewrite H4 by discriminate. cbn [join]. rewrite app_nil_r. unfold S_NL. reflexivity.
-  - destruct (goose_rewrite (lines (concat (map tool_change (p_changes p))))); discriminate.
+  - destruct (goose_rewrite (ulines (concat (map tool_change (p_changes p))))); discriminate.
 Qed.
 
 (** ** the Goose round trip *)
